@@ -40,7 +40,8 @@ Record ninfo := {
   n_ctype : presence change_type;              (* "x-kuksa-changetype" *)
   n_default : option json }.
 
-Inductive node := Node (i : ninfo) (children : option forest)
+(* has_children: the "children" key is present; without it the forest is empty *)
+Inductive node := Node (i : ninfo) (has_children : bool) (children : forest)
 with forest := FNil | FCons (name : list Z) (n : node) (r : forest).
 
 (* what parse_vss_from_str returns per leaf *)
@@ -192,7 +193,7 @@ Definition info_ok (i : ninfo) : bool :=
 
 Fixpoint node_ok (n : node) : bool :=
   match n with
-  | Node i ch => info_ok i && match ch with Some f => forest_ok f | None => true end
+  | Node i _ f => info_ok i && forest_ok f
   end
 with forest_ok (f : forest) : bool :=
   match f with
@@ -205,13 +206,9 @@ Definition dot : Z := 46.
 
 Fixpoint flatten_node (path : list Z) (n : node) : option (list (list Z * data_entry)) :=
   match n with
-  | Node i ch =>
+  | Node i hc f =>
     match n_type i with
-    | Present NBranch =>
-      match ch with
-      | Some f => flatten_forest path f
-      | None => None
-      end
+    | Present NBranch => if hc then flatten_forest path f else None
     | Present NSensor => option_map (fun e => [(path, e)]) (leaf_entry i Sensor)
     | Present NAttribute => option_map (fun e => [(path, e)]) (leaf_entry i Attribute)
     | Present NActuator => option_map (fun e => [(path, e)]) (leaf_entry i Actuator)
@@ -376,10 +373,10 @@ Fixpoint dec_node (fuel : nat) (ts : list Z) : option (node * list Z) :=
   | O => None
   | S f =>
     match dec_info fuel ts with
-    | Some (i, 0 :: r) => Some (Node i None, r)
+    | Some (i, 0 :: r) => Some (Node i false FNil, r)
     | Some (i, 1 :: n :: r) =>
       match dec_forest f (Z.to_nat n) r with
-      | Some (fo, r') => Some (Node i (Some fo), r')
+      | Some (fo, r') => Some (Node i true fo, r')
       | None => None
       end
     | _ => None
